@@ -372,6 +372,8 @@ def r6_shared_walker(ctx):
         yield o
     for o in c02.r10_wrapper_loops(ctx):
         yield o
+    for o in c02.r12_repeat_limits(ctx):
+        yield o
 
 
 def r9_shared_error_totals(ctx):
